@@ -40,7 +40,7 @@ class FakeRoute:
 
 def profile():
     return gm.make_profile(p_cfg=1.0, n_ns=(2, 4), n_routes=(1, 5), p_cfg_union_attr=0.2, p_examples=0.1,
-                           p_doc=0.2)
+                           p_doc=0.2, p_shared_route_name=0.4)
 
 
 LIT_POOL = {
